@@ -143,6 +143,61 @@ func (e *FSExplorer) runWire(dir, rel string, argv ...string) FSOutcome {
 	return FSOutcome{Exit: res.Exit, Stdout: res.Stdout, Stderr: res.Stderr, TimedOut: res.TimedOut, Crashed: rePanic.MatchString(res.Stderr)}
 }
 
+// Replay re-executes one history (as recorded in a violation's case id: "init ; op ; op ...")
+// without the explorer and re-evaluates the invariant on every step.
+func (e *FSExplorer) Replay(initial []*FSState, history string) ([]Violation, error) {
+	steps := strings.Split(history, " ; ")
+	var cur *FSState
+	for _, s := range initial {
+		if len(s.Path) > 0 && s.Path[0] == steps[0] {
+			cur = s
+		}
+	}
+	if cur == nil {
+		return nil, fmt.Errorf("no initial state %q", steps[0])
+	}
+	var out []Violation
+	for _, name := range steps[1:] {
+		var op *FSOp
+		for _, o := range e.Ops(cur) {
+			if o.Name == name {
+				oo := o
+				op = &oo
+			}
+		}
+		if op == nil {
+			return out, fmt.Errorf("operation %q is not enabled in the state reached by %v", name, cur.Path)
+		}
+		next := &FSState{Meta: cur.Meta, Depth: cur.Depth + 1, Path: append(append([]string{}, cur.Path...), name)}
+		if op.Edit != nil {
+			nt, ok := op.Edit(cur.Tree.Clone())
+			if !ok {
+				return out, fmt.Errorf("edit %q not applicable", name)
+			}
+			next.Tree = nt
+		} else {
+			dir := e.S.Dir("replay")
+			WriteFiles(dir, ModuleFiles(e.ModPath))
+			WriteFiles(dir, cur.Tree)
+			o := e.runWire(dir, op.Dir, op.Argv...)
+			after := ReadTree(dir)
+			run := func(argv ...string) FSOutcome { return e.runWire(dir, op.Dir, argv...) }
+			vs := e.Invariant(cur, *op, &o, after, dir, run)
+			for i := range vs {
+				vs[i].CaseID = strings.Join(next.Path, " ; ")
+			}
+			out = append(out, vs...)
+			os.RemoveAll(dir)
+			next.Tree = after
+		}
+		if e.Next != nil {
+			next.Meta = e.Next(cur, *op, next.Tree)
+		}
+		cur = next
+	}
+	return out, nil
+}
+
 // Explore runs the BFS from the initial states and returns all violations found.
 func (e *FSExplorer) Explore(initial []*FSState, deadline time.Time) []Violation {
 	if e.Workers == 0 {
